@@ -161,6 +161,34 @@ class SourceToSourceFileImportsTransformation(SourceToSourceTransformationBase):
         block.importset = block.importset.without_imports([imp])
         return imp
 
+    @staticmethod
+    def _import_block_precedes_line(block, lineno):
+        """
+        Whether the text of import block ``block`` lies entirely before the
+        other code of line ``lineno``.
+
+        :type block:
+          `SourceToSourceImportBlockTransformation`
+        :type lineno:
+          ``int`` (or ``Inf``)
+        :rtype:
+          ``bool``
+        """
+        startpos = block.input.startpos
+        endpos = block.input.endpos
+        if endpos.colno == 1 and endpos.lineno > startpos.lineno:
+            # The text ends with a newline: ``endpos`` is on the next line.
+            last_lineno = endpos.lineno - 1
+        else:
+            last_lineno = endpos.lineno
+        if last_lineno < lineno:
+            return True
+        if last_lineno > lineno:
+            return False
+        # The block ends on that very line.  It precedes the rest of the line
+        # only if nothing of that line is in front of it ("x; import y").
+        return startpos.lineno < lineno or startpos.colno == 1
+
     def select_import_block_by_closest_prefix_match(self, imp, max_lineno):
         """
         Heuristically pick an import block that ``imp`` "fits" best into.  The
@@ -182,7 +210,7 @@ class SourceToSourceFileImportsTransformation(SourceToSourceTransformationBase):
                block.input.endpos.lineno),
               block )
             for block in self.import_blocks
-            if block.input.endpos.lineno <= max_lineno+1 ]
+            if self._import_block_precedes_line(block, max_lineno) ]
         if not annotated_blocks:
             raise NoImportBlockError()
         annotated_blocks.sort()
